@@ -292,6 +292,7 @@ package profile
 //@ func Profile.Prune
 //@   requires wfprofile(p) && dropRx != nil
 //@   requires distinct: forall a int, b int :: 0 <= a && a < b && b < len(p.Location) ==> p.Location[a] != p.Location[b]
+//@   atreturn samples_scanned: reached(3) || len(p.Sample) == 0 || (len(prune) == 0 && len(pruneBeneath) == 0)
 //@   ensures count: len(p.Sample) == old(len(p.Sample))
 //@   ensures nonempty: forall k int :: 0 <= k && k < len(p.Sample) && old(len(p.Sample[k].Location)) > 0 ==> len(p.Sample[k].Location) > 0
 //@   ensures shorter: forall k int :: 0 <= k && k < len(p.Sample) ==> len(p.Sample[k].Location) <= old(len(p.Sample[k].Location))
